@@ -315,6 +315,9 @@ pub struct SimPair {
     seq: u64,
     ev: u64,
     next_idx: [u32; 2],
+    /// blackout[link]: (until_us, kinds) - frames of the given kinds (bit 0 data, bit 1 ack,
+    /// bit 2 sync) put on the link before `until_us` are dropped
+    pub blackout: [(u64, u8); 2],
 }
 
 impl SimPair {
@@ -341,6 +344,7 @@ impl SimPair {
             seq: 0,
             ev: 0,
             next_idx: [0, 0],
+            blackout: [(0, 0), (0, 0)],
         }
     }
 
@@ -365,7 +369,15 @@ impl SimPair {
     fn put_on_link(&mut self, from: usize, frames: Vec<Box<[u8]>>) {
         for bytes in frames {
             let to = 1 - from;
-            let fate = if self.fair {
+            let kind_bit = match bytes.first() {
+                Some(10) => 1u8,
+                Some(12) => 2u8,
+                Some(11) => 4u8,
+                _ => 0u8,
+            };
+            let fate = if self.now_us < self.blackout[from].0 && self.blackout[from].1 & kind_bit != 0 {
+                Fate::Drop
+            } else if self.fair {
                 Fate::Deliver(0)
             } else {
                 let f = self.fates[from].get(self.fate_idx[from]).cloned().unwrap_or(Fate::Deliver(0));
@@ -519,8 +531,10 @@ impl SimPair {
         self.tick_no += 1;
     }
 
+    /// Nothing left to send or to be acknowledged on either side (acks / sync / keepalive frames
+    /// may still be travelling).
     pub fn quiescent(&self) -> bool {
-        self.in_flight_count() == 0 && (0..2).all(|e| !self.hc[e].is_send_pending() && self.hc[e].send_buffer_size() == 0)
+        (0..2).all(|e| !self.hc[e].is_send_pending() && self.hc[e].send_buffer_size() == 0)
     }
 
     /// Fair phase: no faults, both endpoints step every `step_us` until quiescent or `max_us`.
